@@ -27,11 +27,81 @@ def dirty():
     return out
 
 
+def parallel(a, dirs, claimed):
+    import queue
+    import tempfile
+    import threading
+    from concurrent.futures import ThreadPoolExecutor
+    trees = queue.Queue()
+    made = []
+    for _ in range(a.jobs):
+        wt = tempfile.mkdtemp(prefix="evals-", dir="/tmp")
+        os.rmdir(wt)
+        if sh("git -C %s worktree add -q --detach %s HEAD" % (REPO, wt)).returncode:
+            print("worktree failed")
+            return 2
+        made.append(wt)
+        trees.put(wt)
+    results = {}
+    lock = threading.Lock()
+
+    def one(patch):
+        name = os.path.basename(os.path.dirname(patch))
+        meta = json.load(open(os.path.join(os.path.dirname(patch), "meta.json")))
+        prop = meta["property"]
+        if meta.get("status") == "obsolete" and not a.names:
+            return name, {"property": prop, "obsolete": True}, "%-14s obsolete on the repaired tree (see meta.json)" % name
+        wt = trees.get()
+        try:
+            r = sh("git -C %s apply --whitespace=nowarn %s" % (wt, patch))
+            if r.returncode != 0:
+                return name, {"property": prop, "applies": False}, "%s: patch does not apply: %s" % (name, r.stderr.strip()[:200])
+            res = {"property": prop, "applies": True, "checks": {}}
+
+            def run(t):
+                c = sh("cd %s && /venv/bin/python -m sa.check %s --tier %s --no-selfcheck --no-evidence --root %s" % (VERIF, t, a.tier, wt))
+                rules = sorted(set(re.findall(r"^\S+: (R-C\d+-\d+) ", c.stdout, flags=re.M)))
+                err = [l for l in c.stdout.splitlines() if l.startswith("ANALYSIS-ERROR")]
+                res["checks"][t] = {"exit": c.returncode, "rules": rules, "analysis_error": err[:1]}
+            run(prop)
+            if a.all and res["checks"][prop]["exit"] != 1:         # the other checks matter only when the own one is silent
+                for t in claimed:
+                    if t != prop:
+                        run(t)
+        finally:
+            sh("git -C %s checkout -- ." % wt)
+            trees.put(wt)
+        own = res["checks"].get(prop, {})
+        others = {k: v["exit"] for k, v in res["checks"].items() if k != prop and v["exit"] != 0}
+        line = "%-14s %s own-check exit=%s rules=%s %s%s" % (
+            name, prop, own.get("exit"), ",".join(own.get("rules", [])) or "-",
+            ("other checks firing: %s" % others) if others else "",
+            (" " + own["analysis_error"][0][:150]) if own.get("analysis_error") else "")
+        return name, res, line
+    try:
+        todo = [p_ for p_ in dirs if not a.names or os.path.basename(os.path.dirname(p_)) in a.names]
+        with ThreadPoolExecutor(a.jobs) as ex:
+            for name, res, line in ex.map(one, todo):
+                results[name] = res
+                print(line, flush=True)
+    finally:
+        for wt in made:
+            sh("git -C %s worktree remove --force %s" % (REPO, wt))
+    out = os.path.join(VERIF, "seeded", "RESULTS.json")
+    old = json.load(open(out)) if os.path.exists(out) and a.names else {}
+    old.update(results)
+    with open(out, "w") as f:
+        json.dump(old, f, indent=1, sort_keys=True)
+    return 0
+
+
 def main():
     ap = argparse.ArgumentParser()
     ap.add_argument("names", nargs="*")
     ap.add_argument("--all", action="store_true", help="run every property's check, not only the seeded property")
     ap.add_argument("--tier", default="quick")
+    ap.add_argument("--jobs", type=int, default=1, help=">1: seeds are evaluated in parallel, each in a scratch worktree of /repo "
+                    "under /tmp (sa.check --root), removed afterwards; 1: the patch is applied to /repo itself and undone")
     a = ap.parse_args()
     if dirty():
         print("refusing: /repo has uncommitted changes:\n" + dirty())
@@ -41,6 +111,8 @@ def main():
     claimed = [c["property_id"] for c in man["checks"]]
     dirs = sorted(glob.glob(os.path.join(VERIF, "seeded", "*", "patch.diff")))
     results = {}
+    if a.jobs > 1:
+        return parallel(a, dirs, claimed)
     for patch in dirs:
         name = os.path.basename(os.path.dirname(patch))
         if a.names and name not in a.names:
